@@ -108,6 +108,13 @@ def run(ctx):
                 "run on InMemoryStateStore and SqliteStateStore; distinct key = (state class, op kinds, outputs' "
                 "shape)")
     ctx.prove()
+    ctx.partial.append("memory-store theorems carry wb_clean: a get_state() snapshot is a shallow copy, so writing it back "
+                       "after a dotted-path set mutated a shared nested container is outside the model (the property "
+                       "speaks about top-level fields/keys of a snapshot only)")
+    ctx.trusted.append("json.dumps/loads and pydantic model_dump/model_validate are the identity on JSON values with string "
+                       "keys (observed by the statestore suite on every run, not modelled); int() modelled for ASCII text")
+    ctx.assumptions.append("segment/key names are not attributes of Python builtins, BaseModel or DictState (generator "
+                           "fails closed); typed fields receive values of their annotated kind; edit_state blocks do not raise")
     S.check_pools()
     rng = random.Random(ctx.seed * 19 + 3)
     dbdir = S.fast_scratch(ctx)
